@@ -139,7 +139,9 @@ PROPS["C15"] = dict(
 )
 
 def c01_optcheck(run, harnesses):
-    """The hypothesis of the all-level optimizer theorem, tested on real samples with the PROVED-SOUND boolean
+    """(NOT REGISTERED ANY MORE: the repaired optimizer is proved at every level without this test, and the test
+    function is about the unrepaired model `Opt.optimize`, whose oracle consumption differs from the repaired Rust in
+    ~0.5% of the samples.) The hypothesis of the all-level optimizer theorem, tested on real samples with the PROVED-SOUND boolean
     `OptCheck.optimizeCheck` (compiled into the driver; proved equal to the proof-side `OptProof.optimizeCheck` by
     `optimizeCheck_light'`): for generated terminating programs x levels 2,3 x environments, with
     the iteration orders the Rust run really used, the analysis every later round consumes is sound for the
@@ -177,8 +179,10 @@ def c01_optcheck(run, harnesses):
 
 
 PROPS["C01"] = dict(
-    modules=["Hpbf.Props.C01", "Hpbf.Props.C01Opt", "Hpbf.Props.C01Dse", "Hpbf.Props.ChainTotal", "Hpbf.Props.C01Loop", "Hpbf.Props.C01Rebuild", "Hpbf.Props.C01Rounds", "Hpbf.Props.ChainO1", "Hpbf.Props.C13Opt"],
-    theorems=t("Hpbf.OptProof", "optimizeOnce_preserves_g' optimizeOnce_onceOk_g' laterRound_ok' prevAnalSound_of_check' optimize_preserves_of_check' optimize_onceOk_of_check' optimize_preserves_of_prevAnalSound' optimizeCheck_light' optimize_preserves_of_check_light' optimize_onceOk_of_check_light'") +
+    modules=["Hpbf.Props.C01", "Hpbf.Props.C01Opt", "Hpbf.Props.C01Dse", "Hpbf.Props.ChainTotal", "Hpbf.Props.C01Loop", "Hpbf.Props.C01Rebuild", "Hpbf.Props.C01Rounds", "Hpbf.Props.ChainO1", "Hpbf.Props.C13Opt", "Hpbf.Props.C01Full", "Hpbf.Props.ChainOn"],
+    theorems=t("Hpbf.Chain", "anylevel_all_backends anylevel_exists level_le_one_all_backends optimize_zero optimizeCheck_level_le_one behEq_anylevel onceOk_anylevel irAgrees_anylevel ir_anylevel") +
+             t("Hpbf.OptProof", "optimizeOnce_analIn_l1' optimizeOnce_analIn_g' f13_miscompile' f13_miscompile_bf' f13b_miscompile' f13_check_false' fixed_analysis_sound optimizeF_preserves_all_levels' optimizeF_onceOk_all_levels'") +
+             t("Hpbf.OptProof", "optimizeOnce_preserves_g' optimizeOnce_onceOk_g' laterRound_ok' prevAnalSound_of_check' optimize_preserves_of_check' optimize_onceOk_of_check' optimize_preserves_of_prevAnalSound' optimizeCheck_light' optimize_preserves_of_check_light' optimize_onceOk_of_check_light'") +
              t("Hpbf.OptTotal", "optimize_no_panic' optimize_never_panics optimize_total' optimize_canonL'") +
              t("Hpbf.OptProof", "optimizeOnce_rdOk' optimizeOnce_analSound' round_dse_behEq' analSound_round1' round1_dse_behEq' optimize_preserves_of_laterRounds'") +
              t("Hpbf.Chain", "level1_all_backends ir_level1 ir_limited_level1 irAgrees_level1 irAgrees_of_behEq onceOk_level1") +
@@ -205,9 +209,8 @@ PROPS["C01"] = dict(
              dict(suite="optrun", quick=700, thorough=40000, judge="tie"),
              dict(suite="levelcap", quick=400, thorough=20000, judge="const"),
              dict(suite="irecho", quick=300, thorough=5000, judge="tie")],
-    extra=[c01_optcheck],
     corpus=["programs"], corpus_judge="program",
-    scope="HEADLINE AT -O1 (Props/ChainO1, level1_all_backends): for every balanced source, width >= 1, environment and ANY oracle for which the optimizer model succeeds at level 1, canonical semantics, in-place interpreter, IR interpreter on the optimized IR, and the bytecode machine (both dispatch profiles) on translate of the optimized IR have the same set of results, and the JIT's machine code returns the canonical result under JitRange. OPTIMISATION LEVEL 1 IS PROVED (Props/C01Rebuild): for every IR block whose expressions are in normal form (parser output is), every width >= 1, every oracle of hash iteration orders and every environment, the exact optimizer model Opt.optimize b 1 returns a block with the same behaviour — forward, backward and prefix on the event trace (optimize_preserves_level1', optimize_parse_level1) — and every loop it marks `once` is entered with a non-zero condition (optimize_onceOk_level1'), which discharges the hypothesis of the bytecode/JIT chain at -O1. The proof covers the symbolic rebuild state (written/pending/reverse), Tarjan-ordered emission for every iteration order, clobbering, nested blocks with the parent chain, inlining, the wrapping if, loop analysis and loop motion; it FOUND two genuine miscompiles (F11, F12), both repaired. Towards levels 2 and 3 (Props/C01Rounds): the analysis a round records matches its output node by node, so dead store elimination never fails on it and its syntactic hypotheses hold (optimizeOnce_shapeOk', dse_total_after_round'); at_most_once/at_least_once facts hold; round 1 followed by DSE preserves behaviour given the one remaining clause ReadsFact (round1_dse_preserves'); optimize_preserves_of_steps' reduces every level to named per-step obligations. The rounds that USE the previous analysis are proved under the semantic hypothesis PrevAnalSound (laterRound_ok'), which has a PROVED-SOUND executable test: optimize_preserves_of_check' gives behaviour preservation at EVERY level whenever optimizeCheck N b level orders env = true; the test runs on every sampled program with the real iteration orders (optcheck stream). HEADLINE (Props/ChainTotal, level0_all_backends): for every balanced source, width >= 1 and environment the canonical semantics, the in-place interpreter, the IR interpreter, the bytecode machine in both dispatch profiles (p = translate (parse src), total) have the SAME set of results (ending kind + event trace), and the machine code of the JIT returns the canonical result (forward; full converse in limited mode) under explicit range hypotheses. Level 0 is FULL: for every balanced program, environment and width (w >= 1) the IR produced by "
+    scope="ALL OPTIMISATION LEVELS ARE PROVED, WITHOUT ANY PER-RUN HYPOTHESIS, FOR THE REPAIRED OPTIMIZER (Props/C01Full): optimizeF_preserves_all_levels' — for every block in normal form (parser output is), width >= 1, level, oracle and environment, OptFix.optimizeF b level orders = .ok b' implies the same behaviour (forward, backward, prefix on events), and every loop marked `once` is entered with a non-zero condition (optimizeF_onceOk_all_levels'). OptFix.optimizeF = the exact port's optimizeOnce followed by the recomputation of the recorded clobbered sets (the repair of F13, implemented in /repo as the same post-pass; the optrun tie compares the Rust with optimizeF and distinguishes it from the unrepaired model in ~0.5% of the samples). The unrepaired optimizer is PROVED WRONG at level 2 by kernel-checked witnesses (f13_miscompile_bf', f13b_miscompile'), and the per-run test of C01Rounds is shown false there (f13_check_false'), i.e. the earlier conditional theorem was, correctly, silent. HEADLINE AT -O1 (Props/ChainO1, level1_all_backends): for every balanced source, width >= 1, environment and ANY oracle for which the optimizer model succeeds at level 1, canonical semantics, in-place interpreter, IR interpreter on the optimized IR, and the bytecode machine (both dispatch profiles) on translate of the optimized IR have the same set of results, and the JIT's machine code returns the canonical result under JitRange. OPTIMISATION LEVEL 1 IS PROVED (Props/C01Rebuild): for every IR block whose expressions are in normal form (parser output is), every width >= 1, every oracle of hash iteration orders and every environment, the exact optimizer model Opt.optimize b 1 returns a block with the same behaviour — forward, backward and prefix on the event trace (optimize_preserves_level1', optimize_parse_level1) — and every loop it marks `once` is entered with a non-zero condition (optimize_onceOk_level1'), which discharges the hypothesis of the bytecode/JIT chain at -O1. The proof covers the symbolic rebuild state (written/pending/reverse), Tarjan-ordered emission for every iteration order, clobbering, nested blocks with the parent chain, inlining, the wrapping if, loop analysis and loop motion; it FOUND two genuine miscompiles (F11, F12), both repaired. Towards levels 2 and 3 (Props/C01Rounds): the analysis a round records matches its output node by node, so dead store elimination never fails on it and its syntactic hypotheses hold (optimizeOnce_shapeOk', dse_total_after_round'); at_most_once/at_least_once facts hold; round 1 followed by DSE preserves behaviour given the one remaining clause ReadsFact (round1_dse_preserves'); optimize_preserves_of_steps' reduces every level to named per-step obligations. The rounds that USE the previous analysis are proved under the semantic hypothesis PrevAnalSound (laterRound_ok'), which has a PROVED-SOUND executable test: optimize_preserves_of_check' gives behaviour preservation at EVERY level whenever optimizeCheck N b level orders env = true; the test runs on every sampled program with the real iteration orders (optcheck stream). HEADLINE (Props/ChainTotal, level0_all_backends): for every balanced source, width >= 1 and environment the canonical semantics, the in-place interpreter, the IR interpreter, the bytecode machine in both dispatch profiles (p = translate (parse src), total) have the SAME set of results (ending kind + event trace), and the machine code of the JIT returns the canonical result (forward; full converse in limited mode) under explicit range hypotheses. Level 0 is FULL: for every balanced program, environment and width (w >= 1) the IR produced by "
           "Program::parse, run by the IR interpreter model, has exactly the canonical event sequence, terminates iff "
           "the canonical run does, and every intermediate output is a canonical prefix (parse_forward/backward/prefix); "
           "the folding of odd-step loops is justified for every width. Levels >= 1: partial, see not_proved. The "
@@ -237,9 +240,8 @@ PROPS["C01"] = dict(
           "under explicit soundness hypotheses on the state queries (compare, getConstant, getBoth) that the rebuild "
           "invariant has to supply.",
     not_proved="optimize (levels 1..3) now HAS a complete exact Lean model (Opt.lean, 986 lines, tied on ~290 000 "
-               "programs incl. every example program: 0 differences), and is proved behaviour preserving at level 1 unconditionally and at levels 2, 3 under PrevAnalSound; that "
-               "PrevAnalSound holds for the pipeline itself is NOT a theorem (its proved-sound boolean test is run per sample; "
-               "where it would be false the theorem is silent); "
+               "programs incl. every example program: 0 differences), and the repaired optimizer (OptFix.optimizeF, what /repo now implements) is proved behaviour preserving at every "
+               "level with no per-run hypothesis; "
                "proved are its arithmetic cores and its dead store elimination pass, whose soundness hypotheses (AnalSound, "
                "NoDupTargets) are facts about the unmodelled rebuild round and are TESTED on every run (dsefacts: the "
                "verified boolean checker C01Dse.checkSound on the real analysis of every sampled program). For levels >= 1 "
@@ -440,8 +442,9 @@ def c07_limited(run, harnesses):
 
 
 PROPS["C05"] = dict(
-    modules=["Hpbf.Props.C05", "Hpbf.Props.Chain", "Hpbf.Props.ChainTotal", "Hpbf.Props.ChainO1"],
-    theorems=t("Hpbf.Chain", "bc_never_returns_level1 bc_runs_forever_level1 bc_limited_interrupted_level1 bc_divergent_output_level1 jit_level1_divergent") +
+    modules=["Hpbf.Props.C05", "Hpbf.Props.Chain", "Hpbf.Props.ChainTotal", "Hpbf.Props.ChainO1", "Hpbf.Props.ChainOn"],
+    theorems=t("Hpbf.Chain", "bc_never_returns_anylevel bc_runs_forever_anylevel bc_limited_interrupted_anylevel bc_divergent_output_anylevel jit_anylevel_divergent") +
+             t("Hpbf.Chain", "bc_never_returns_level1 bc_runs_forever_level1 bc_limited_interrupted_level1 bc_divergent_output_level1 jit_level1_divergent") +
              t("Hpbf.Chain", "bc_never_returns_unconditional bc_runs_forever_unconditional bc_limited_interrupted_unconditional bc_divergent_output_unconditional bc_terminates_unconditional jit_level0_divergent_unconditional") +
              t("Hpbf.Chain", "bc_never_returns bc_runs_forever bc_runs_forever_or_bad bc_limited_interrupted bc_terminates bc_divergent_output jit_level0_divergent") +
              t("Hpbf.C05", "normTape_denotes sameCfg_sound step_congr repeat_diverges cert_diverges_sound "
@@ -474,8 +477,9 @@ PROPS["C05"] = dict(
 )
 
 PROPS["C07"] = dict(
-    modules=["Hpbf.Props.C07", "Hpbf.Props.C04", "Hpbf.Props.Chain", "Hpbf.Props.ChainTotal", "Hpbf.Props.ChainO1"],
-    theorems=t("Hpbf.Chain", "bc_limited_finished_level1 bc_limited_prefix_level1 bc_limited_enough_level1 ir_limited_level1 jit_level1_limited jit_level1_limited_enough") +
+    modules=["Hpbf.Props.C07", "Hpbf.Props.C04", "Hpbf.Props.Chain", "Hpbf.Props.ChainTotal", "Hpbf.Props.ChainO1", "Hpbf.Props.ChainOn"],
+    theorems=t("Hpbf.Chain", "bc_limited_finished_anylevel bc_limited_prefix_anylevel bc_limited_enough_anylevel jit_anylevel_limited jit_anylevel_limited_enough") +
+             t("Hpbf.Chain", "bc_limited_finished_level1 bc_limited_prefix_level1 bc_limited_enough_level1 ir_limited_level1 jit_level1_limited jit_level1_limited_enough") +
              t("Hpbf.Chain", "bc_limited_finished_unconditional bc_limited_is_prefix_unconditional bc_limited_enough_unconditional bc_limited_total_unconditional jit_level0_limited_unconditional jit_level0_limited_enough_unconditional") +
              t("Hpbf.Chain", "bc_limited_finished bc_limited_prefix bc_limited_is_prefix bc_limited_enough jit_level0_limited jit_level0_limited_enough") +
              t("Hpbf.C07", "ir_limited_done ir_limited_stopped ir_limited_prefix ir_limited_is_prefix ir_limited_enough "
@@ -506,8 +510,9 @@ PROPS["C07"] = dict(
 )
 
 PROPS["C08"] = dict(
-    modules=["Hpbf.Props.C08", "Hpbf.Props.Chain", "Hpbf.Props.ChainTotal", "Hpbf.Props.ChainO1"],
-    theorems=t("Hpbf.Chain", "bc_stops_like_canonical_level1 bc_stops_only_like_canonical_level1") +
+    modules=["Hpbf.Props.C08", "Hpbf.Props.Chain", "Hpbf.Props.ChainTotal", "Hpbf.Props.ChainO1", "Hpbf.Props.ChainOn"],
+    theorems=t("Hpbf.Chain", "bc_stops_like_canonical_anylevel bc_stops_only_like_canonical_anylevel") +
+             t("Hpbf.Chain", "bc_stops_like_canonical_level1 bc_stops_only_like_canonical_level1") +
              t("Hpbf.Chain", "bc_stops_like_canonical_unconditional bc_stops_only_like_canonical_unconditional") +
              t("Hpbf.Chain", "bc_stops_like_canonical bc_limited_stops_like_canonical bc_stops_only_like_canonical bc_refused_byte") +
              t("Hpbf.C08", "outByte_low8 eof_reads_zero eof_sticky eof_reply_reads_zero input_error_stops "
@@ -692,8 +697,9 @@ PROPS["C13"] = dict(
 )
 
 PROPS["C02"] = dict(
-    modules=["Hpbf.Props.C02", "Hpbf.Props.C02Emit", "Hpbf.Props.C02Dse", "Hpbf.Props.C02Alloc", "Hpbf.Props.C02EmitTotal", "Hpbf.Props.C11", "Hpbf.Props.C07", "Hpbf.Props.Chain", "Hpbf.Props.C02AllocTotal", "Hpbf.Props.ChainTotal", "Hpbf.Props.ChainO1"],
-    theorems=t("Hpbf.Chain", "bytecode_level1 bytecode_level1_debug bytecode_level1_proper bcAgrees_level1 bcAgrees_of_ir level1_all_backends") +
+    modules=["Hpbf.Props.C02", "Hpbf.Props.C02Emit", "Hpbf.Props.C02Dse", "Hpbf.Props.C02Alloc", "Hpbf.Props.C02EmitTotal", "Hpbf.Props.C11", "Hpbf.Props.C07", "Hpbf.Props.Chain", "Hpbf.Props.C02AllocTotal", "Hpbf.Props.ChainTotal", "Hpbf.Props.ChainO1", "Hpbf.Props.ChainOn"],
+    theorems=t("Hpbf.Chain", "bcAgrees_anylevel bytecode_anylevel bytecode_anylevel_debug bytecode_anylevel_proper anylevel_all_backends") +
+             t("Hpbf.Chain", "bytecode_level1 bytecode_level1_debug bytecode_level1_proper bcAgrees_level1 bcAgrees_of_ir level1_all_backends") +
              t("Hpbf.Chain", "translate_ok translate_check translate_refines_unconditional translate_refines_noOnce_unconditional translate_never_bad_unconditional bytecode_level0_unconditional bytecode_level0_debug_unconditional bytecode_level0_source same_bc same_bc_debug level0_all_backends") +
              t("Hpbf.C02", "allocateTemps_total_of_pre totalPre_of_emit allocateTemps_total_of_emit translateE_total translateE_total_check") + t("Hpbf.C02.Alloc", "drainEnds_total liveMask_total alloc_step_total tinv_step alloc_total_defd_necessary alloc_total_defAt_necessary alloc_total_unread_necessary alloc_total_lastLt_necessary alloc_total_any_numRegs") +
              t("Hpbf.C02", "emit_total emitOnly_total emit_forward' emit_backward' emit_prefix'") +
@@ -765,8 +771,9 @@ PROPS["C02"] = dict(
 
 
 PROPS["C03"] = dict(
-    modules=["Hpbf.Props.C03", "Hpbf.Props.C03Flow", "Hpbf.Props.C03Total", "Hpbf.Props.C11", "Hpbf.Props.C11Full", "Hpbf.Props.Chain", "Hpbf.Props.ChainTotal", "Hpbf.Props.ChainO1"],
-    theorems=t("Hpbf.Chain", "jit_level1_forward jit_level1_unique jit_level1_prefix jit_level1_divergent jit_level1_limited jit_level1_limited_enough translate_window_optimized jitRange_window_of_length level1_all_backends") +
+    modules=["Hpbf.Props.C03", "Hpbf.Props.C03Flow", "Hpbf.Props.C03Total", "Hpbf.Props.C11", "Hpbf.Props.C11Full", "Hpbf.Props.Chain", "Hpbf.Props.ChainTotal", "Hpbf.Props.ChainO1", "Hpbf.Props.ChainOn"],
+    theorems=t("Hpbf.Chain", "jit_anylevel_forward jit_anylevel_unique jit_anylevel_prefix jit_anylevel_divergent jit_anylevel_limited jit_anylevel_limited_enough anylevel_all_backends") +
+             t("Hpbf.Chain", "jit_level1_forward jit_level1_unique jit_level1_prefix jit_level1_divergent jit_level1_limited jit_level1_limited_enough translate_window_optimized jitRange_window_of_length level1_all_backends") +
              t("Hpbf.Chain", "jitCode_spec jitHyps_of_range jit_level0_forward_unconditional jit_level0_unique_unconditional jit_level0_prefix_unconditional jit_level0_divergent_unconditional jit_level0_limited_unconditional jit_level0_limited_enough_unconditional jit_forward_fin jit_limited_fin level0_all_backends") +
              t("Hpbf.C03", "total_emitCopy total_emitAdd total_emitSub total_emitMul total_selector_iff selector_total selector_total_converse total_savedRegs total_emit_shape total_alloc_shape total_reorder_jitForm translate_jitForm translate_jitForm_numRegs total_arith_fits total_emitInstr compile_total_modulo_fits total_fits_of_bounds translate_compile translate_compile_of_localOk") + t("Hpbf.C02", "translateE_check") +
              t("Hpbf.Chain", "x86_ret_unique jit_of_bc jit_level0_forward jit_level0_unique jit_level0_prefix jit_level0_divergent jit_level0_limited jit_level0_limited_enough") +
